@@ -172,14 +172,15 @@ func (x *Exec) call(st *State, site ssa.Value, cc *ssa.CallCommon, fnVal Val, ar
 	}
 	{
 		key := x.calleeKey(st, fr, cc)
-		if top := st.frames[0]; top == fr && top.contract != nil && top.contract.Relies[key] != nil && !x.lemmaMode {
+		// the call may sit in the function under contract itself or in a helper inlined into it
+		if top := st.frames[0]; top.contract != nil && top.contract.Relies[key] != nil && !x.lemmaMode {
 			rs := top.contract.Relies[key]
 			if rs.PreSnap != "" {
 				// the state in which the call is made
-				if fr.snaps == nil {
-					fr.snaps = map[string]map[string]Term{}
+				if top.snaps == nil {
+					top.snaps = map[string]map[string]Term{}
 				}
-				fr.snaps[rs.PreSnap] = st.snapshot()
+				top.snaps[rs.PreSnap] = st.snapshot()
 			}
 			k1 := k
 			k = func(st2 *State, res Val) {
